@@ -193,3 +193,30 @@ pub proof fn lemma_c08_injective(a: V1Addresses, b: V1Addresses)
     lemma_c08_roundtrip(a);
     lemma_c08_roundtrip(b);
 }
+
+// [props: C08 C15]
+/// appending the canonical line piece by piece gives the canonical line (re-association only)
+#[verifier::spinoff_prover]
+pub proof fn lemma_display_onto(o: Seq<u8>, a: V1Addresses)
+    ensures v1_display_onto(o, a) =~= o + v1_display(a)
+{
+    match a {
+        V1Addresses::Unknown => {},
+        V1Addresses::Tcp4(x) => {
+            let (sa, da, spt, dpt) = (display_ipv4(x.source_address), display_ipv4(x.destination_address), display_u16(x.source_port), display_u16(x.destination_port));
+            let head = b_proxy() + sp() + b_tcp4() + sp();
+            let l1 = head + sa; let l2 = l1 + sp(); let l3 = l2 + da; let l4 = l3 + sp(); let l5 = l4 + spt; let l6 = l5 + sp(); let l7 = l6 + dpt; let l8 = l7 + b_crlf();
+            assert(l8 =~= tcp4_line(sa, da, spt, dpt));
+            assert(o + head + sa =~= o + l1); assert(o + l1 + sp() =~= o + l2); assert(o + l2 + da =~= o + l3); assert(o + l3 + sp() =~= o + l4);
+            assert(o + l4 + spt =~= o + l5); assert(o + l5 + sp() =~= o + l6); assert(o + l6 + dpt =~= o + l7); assert(o + l7 + b_crlf() =~= o + l8);
+        },
+        V1Addresses::Tcp6(x) => {
+            let (sa, da, spt, dpt) = (display_ipv6(x.source_address), display_ipv6(x.destination_address), display_u16(x.source_port), display_u16(x.destination_port));
+            let head = b_proxy() + sp() + b_tcp6() + sp();
+            let l1 = head + sa; let l2 = l1 + sp(); let l3 = l2 + da; let l4 = l3 + sp(); let l5 = l4 + spt; let l6 = l5 + sp(); let l7 = l6 + dpt; let l8 = l7 + b_crlf();
+            assert(l8 =~= tcp6_line(sa, da, spt, dpt));
+            assert(o + head + sa =~= o + l1); assert(o + l1 + sp() =~= o + l2); assert(o + l2 + da =~= o + l3); assert(o + l3 + sp() =~= o + l4);
+            assert(o + l4 + spt =~= o + l5); assert(o + l5 + sp() =~= o + l6); assert(o + l6 + dpt =~= o + l7); assert(o + l7 + b_crlf() =~= o + l8);
+        },
+    }
+}
